@@ -139,8 +139,9 @@ inline History histParse(const std::string& t) {
 
 static const int NSCALARS = 12;
 static const char* kScalarName[] = {"null", "true", "42", "-7e10", "1.5", "1e100", "\"k\"linked", "\"k\"copied", "\"v2\"copied", "raw[1]", "raw\\xc9", "raw\\xc6\\x80000000"};
-static const char* kTexts[] = {"{\"k\":[1,\"k\"]}", "[1e100,\"v2\"]", "\"k\"", "[1,"};
-static const int NTEXTS = 4;
+static const char* kTexts[] = {"{\"k\":[1,\"k\"]}", "[1e100,\"v2\"]", "\"k\"", "[1,", "msgpack{\"k\":[1,\"k\"]}"};
+static const int NTEXTS = 5;
+static const char kMsgPackText[] = "\x81\xa1k\x92\x01\xa1k";  // {"k":[1,"k"]}
 
 inline std::string opText(const Op& o) {
   std::string d = "D" + std::to_string(o.doc), d2 = "D" + std::to_string(o.doc2);
@@ -153,7 +154,7 @@ inline std::string opText(const Op& o) {
     case ADD_ARRAY: return p + ".add<JsonArray>()";
     case ADD_OBJECT: return p + ".add<JsonObject>()";
     case SET_INDEX: return p + "[" + std::to_string(o.b) + "]=" + kScalarName[o.a];
-    case SET_KEY: return p + "[\"" + vis(o.key) + "\"]=" + kScalarName[o.a];
+    case SET_KEY: return p + "[\"" + vis(o.key) + "\"" + (o.b == 1 ? "linked" : "") + "]=" + kScalarName[o.a];
     case SET_KEY2: return p + "[\"" + vis(o.key) + "\"][\"" + vis(o.key2) + "\"]=" + kScalarName[o.a];
     case REMOVE_INDEX: return p + (o.b ? ".remove(begin+" : ".remove(") + std::to_string(o.a) + ")";
     case REMOVE_KEY: return p + ".remove(\"" + vis(o.key) + "\")";
@@ -467,7 +468,7 @@ inline Expect modelApply(World& W, const Op& o) {
       if (!t) { E.ret = ""; E.mutates = false; break; }
       if (o.path.empty()) killDoc(W, o.doc); else killBelow(W, o.doc, o.path, false);
       MValue v;
-      if (refjson::parse(kTexts[o.a], v)) {
+      if (refjson::parse(kTexts[o.a == 4 ? 0 : o.a], v)) {
         std::function<void(MValue&)> strip = [&](MValue& m) { if (m.isNumber()) m.s.clear(); for (auto& e : m.a) strip(e); for (auto& kv : m.o) strip(kv.second); };
         strip(v);
         *t = refjson::dedup(v, true);
@@ -585,6 +586,11 @@ inline std::string realApply(Real& R, const Op& o) {
       if (atRoot) return B(setScalar(d[size_t(o.b)], o.a));
       return B(setScalar(resolve(d, o.path)[size_t(o.b)], o.a));
     case SET_KEY:
+      if (o.b == 1) {  // key given as const char*: stored by address (the Op outlives the documents)
+        const char* k = o.key.c_str();
+        if (atRoot) return B(setScalar(d[k], o.a));
+        return B(setScalar(resolve(d, o.path)[k], o.a));
+      }
       if (atRoot) return B(setScalar(d[o.key], o.a));
       return B(setScalar(resolve(d, o.path)[o.key], o.a));
     case SET_KEY2:
@@ -641,7 +647,13 @@ inline std::string realApply(Real& R, const Op& o) {
     case SHRINK: d.shrinkToFit(); return "";
     case DESERIALIZE: {
       DeserializationError e;
-      if (atRoot) e = deserializeJson(d, kTexts[o.a]);
+      if (o.a == 4) {
+        if (atRoot) e = deserializeMsgPack(d, kMsgPackText, sizeof(kMsgPackText) - 1);
+        else {
+          JsonVariant v = resolve(d, o.path);
+          e = deserializeMsgPack(v, kMsgPackText, sizeof(kMsgPackText) - 1);
+        }
+      } else if (atRoot) e = deserializeJson(d, kTexts[o.a]);
       else {
         JsonVariant v = resolve(d, o.path);
         e = deserializeJson(v, kTexts[o.a]);
@@ -702,6 +714,8 @@ inline void enabledOps(const World& W, const Alphabet& AB, std::vector<Op>& out)
         }
       }
       if (objectish) {
+        o.code = SET_KEY; o.key = "a"; o.a = 2; o.b = 1; out.push_back(o);  // linked key
+        o.b = 0;
         o.code = SET_KEY2; o.a = 2; o.key = "a"; o.key2 = "b"; out.push_back(o);
         if (AB.full) { o.key = "b"; o.key2 = "a"; o.a = 8; out.push_back(o); }
       }
@@ -740,7 +754,7 @@ inline void enabledOps(const World& W, const Alphabet& AB, std::vector<Op>& out)
       o.path2.clear();
       // deserialization into this value
       for (int k = 0; k < NTEXTS; k++) {
-        if (!AB.full && k == 1) continue;
+        if (!AB.full && (k == 1 || k == 2)) continue;
         o.code = DESERIALIZE; o.a = k; out.push_back(o);
       }
       // handles
